@@ -164,7 +164,7 @@ impl Check for C07 {
         proptest::strategy::Union::new(vec![ana_strategy(tier, true), ana_strategy(tier, false)]).boxed()
     }
     fn cases(&self, tier: Tier) -> u32 {
-        tier.pick(6000, 120000)
+        tier.pick(24000, 400000)
     }
     fn run(&self, case: &AnaCase, st: &mut Stats) -> Verdict {
         let p = match prepare(case) {
@@ -265,7 +265,7 @@ impl Check for C08 {
         proptest::strategy::Union::new(vec![ana_strategy(tier, true), ana_strategy(tier, false)]).boxed()
     }
     fn cases(&self, tier: Tier) -> u32 {
-        tier.pick(3000, 60000)
+        tier.pick(24000, 400000)
     }
     fn run(&self, case: &AnaCase, st: &mut Stats) -> Verdict {
         let p = match prepare(case) {
